@@ -51,9 +51,9 @@ CHECKS = {
   "Fragments agree on content and datagram end (contradictory fragments belong to C07). The sequence / schedule exploration uses Process ids of its own; the key function is checked by the keys job. Virtual clock. Known finding D22 (32-bit hash key collisions).",
   "DESIGN.md §3.1, §3.3, §5 C08"),
  "C10": ("seqx+enum+coop",
-  "explicit-state search over reserve/release histories vs a reference set; exhaustive enumeration of all 49536 ephemeral start offsets; stateless model checking of racing reservations with brute-force linearizability",
-  "All Reserve/Release histories up to depth 3 (+state-deduplicated BFS to 4; thorough 4/+6) over 3 network sets x 2 transports x {any,A,B} x 2 ports + ephemeral requests, with the complete availability table compared after every step; PickEphemeralPort for every one of the 49536 start offsets (rand shim) with nothing free (probed set must be exactly [16000,65535]), one free port at 3-8 positions, failing tester; 9 racing programs over all schedules, linearizability against the reference.",
-  "Release only of held reservations (API contract); math/rand replaced by a shim returning the enumerated offset.",
+  "explicit-state search over reserve/release histories vs a reference set, and over bind/connect/listen/close histories of real UDP and TCP sockets; exhaustive enumeration of all 49536 ephemeral start offsets; stateless model checking of racing reservations with brute-force linearizability",
+  "All Reserve/Release histories up to depth 3 (+state-deduplicated BFS to 4; thorough 4/+6) over 3 network sets x 2 transports x {any,A,B} x 2 ports + ephemeral requests, with the complete availability table compared after every step; PickEphemeralPort for every one of the 49536 start offsets (rand shim) with nothing free (probed set must be exactly [16000,65535]), one free port at 3-8 positions, failing tester; socket level: every sequence of length 3 (thorough 4) over {bind(*:P), bind(A:P), bind(*:0), connect(v4 peer), connect(v6 peer), listen, close} on two sockets of kinds {udp4, udp6 dual-stack, tcp4, tcp6 dual-stack} (10 kind pairs) on a real stack - once both are closed no (network, transport, address, port) may remain reserved; 9 racing programs over all schedules, linearizability against the reference.",
+  "Release only of held reservations (API contract); math/rand replaced by a shim returning the enumerated offset. The socket-level part checks the end state (everything released), not every intermediate reservation.",
   "DESIGN.md §5 C10"),
  "C14": ("enum+envx",
   "exhaustive enumeration: all 2^32 second operands from each base point against the serial-number definition on 64-bit distances; stateless model checking (deviation-bounded DFS against the raw peer) of the TCP users of the arithmetic with wrap-adjacent initial sequence numbers",
@@ -87,7 +87,7 @@ CHECKS = {
   "DESIGN.md §5 C19"),
  "C07": ("enum (envx world)",
   "exhaustive enumeration of hostile inbound frame sequences (small-scope fragment sequences, all single field mutations and truncations of valid packets, short noise) against the real stack in the deterministic world, worker-isolated; liveness probes after every sequence",
-  "IPv4 fragments: all sequences of length <=2 (thorough 3) over offset {0,8,16,65528} x length {0,8,16,24} x MF {0,1} x id {1,2}; for each of 15 valid templates (ARP, ICMPv4 echo / unreachable, UDP, TCP SYN/ACK/data/RST to listener, connection and closed port, the IPv6 counterparts incl. NS/NA and packet-too-big) every length/offset/count/flag field set to each boundary value and every truncation length; every byte string of length <=2 and fills of every length 0..80 under each ethertype; each template and each of its field mutations delivered in two views cut at every byte (quick: mutations cut within bytes 20..104) and, for IPv4, as two fragments cut at every 8-byte boundary in both arrival orders; every 3-byte (thorough: 4-byte) TCP option area over a 12-symbol alphabet (known and unknown kinds, length bytes 0/1/2/3/4/10/40/255) on a SYN to the listener and on a data segment of the connection; pairs of a 24-letter digest of the above; the same runt/short frames through the repository's fd-based Ethernet endpoint over a socketpair. After every sequence: no panic, no dead worker (a dying worker process is re-run in isolation and reported), no goroutine deadlocked, wedged or spinning (still runnable after 200000 yields / 30 s), and the stack still answers an echo request, still completes a handshake on the listener and still delivers a UDP datagram.",
+  "IPv4 fragments: all sequences of length <=2 (thorough 3) over offset {0,8,16,65528} x length {0,8,16,24} x MF {0,1} x id {1,2}; for each of 15 valid templates (ARP, ICMPv4 echo / unreachable, UDP, TCP SYN/ACK/data/RST to listener, connection and closed port, the IPv6 counterparts incl. NS/NA and packet-too-big) every length/offset/count/flag field set to each boundary value, every value of every byte of the TCP sequence and acknowledgement numbers, and every truncation length; every byte string of length <=2 and fills of every length 0..80 under each ethertype; each template and each of its field mutations delivered in two views cut at every byte (quick: mutations cut within bytes 20..104) and, for IPv4, as two fragments cut at every 8-byte boundary in both arrival orders; every 3-byte (thorough: 4-byte) TCP option area over a 12-symbol alphabet (known and unknown kinds, length bytes 0/1/2/3/4/10/40/255) on a SYN to the listener and on a data segment of the connection; pairs of a 24-letter digest of the above; the same runt/short frames through the repository's fd-based Ethernet endpoint over a socketpair. After every sequence: no panic, no dead worker (a dying worker process is re-run in isolation and reported), no goroutine deadlocked, wedged or spinning (still runnable after 200000 yields / 30 s), and the stack still answers an echo request, still completes a handshake on the listener and still delivers a UDP datagram.",
   "Inputs are injected at the link layer of one NIC; reassembly timeouts are not advanced inside a sequence. Single-field mutations and pairs, not arbitrary byte strings of packet length.",
   "DESIGN.md §5 C07"),
  "C09": ("seqx+coop",
@@ -102,8 +102,8 @@ CHECKS = {
   "DESIGN.md §5 C12"),
  "C20": ("enum (envx world)",
   "exhaustive enumeration of the request / message input product through the real bundled HTTP and WebSocket code over the real stack talking to itself in the deterministic world (frames pumped at a quiescence barrier; the pacing of application reads against segment arrival enumerated as environment choices), compared with what was sent and with an independent RFC 6455 frame codec and accept-key computation",
-  "HTTP: methods {GET,HEAD,POST,PUT} x 4 paths (3 registered, 1 not) x all 16 subsets of a 4-header menu x bodies {empty, 1 byte, 1 KiB; thorough also 60000 bytes}; all 64 sequences of 3 requests over a 4-request menu: the handler registered for the path is invoked exactly once with method, header values and body byte-for-byte, no handler for an unregistered path, the client result equals what the handler produced, status line 200 OK on the wire. WebSocket: accept key for 8 client keys vs RFC 6455; every message length 0..130 and 65530..65540 plus 200 KiB and 300 KiB, unmasked through the bundled client and masked with keys {00000000, ffffffff, 01020304, 80000001} through a raw RFC 6455 client over the repository's TCP client; sequences of 3 client messages + 2 server pushes over lengths {0,7,126,300}: every message arrives whole, in order, byte-for-byte in both directions, server frames decode with minimal length encoding. Pacing: the handler passes a gate before every read and the client before every receive; for exchanges of two messages (300+7 and 70000+5 bytes; thorough also 200 KiB+66000 and 0+126), with and without two server pushes, masked and unmasked, pipelined and lock-step, every gate vector over {run at once, after 1 more frame, after 2 more frames, when nothing else can move}^3 for the server x {at once, when idle} for the client x {1, 2, all} frames delivered per barrier. The same exchanges with 20000/30000-byte messages followed by shorter ones over an MTU of 1500 (the first message is still queued in the TCP sender when the next is produced).",
-  "Bodies and header values are in the grammar the bundled parser carries (no ': ', no CRLF). A request fits one TCP segment (the HTTP layer reads a message with a single receive; loopback MTU 65535). The application goroutines run freely between barriers (channels of the application layer are not scheduled by the explorer): below the gates the check enumerates inputs and application pacing, not lock-level interleavings. Known finding D17 (pushed frames swallowed by the client's upgrade receive).",
+  "HTTP: methods {GET,HEAD,POST,PUT} x 4 paths (3 registered, 1 not) x all 16 subsets of a 4-header menu x bodies {empty, 1 byte, 1 KiB, 7 bodies with line breaks or spaces at the front / in the middle / at the end; thorough also 60000 bytes}; all 64 sequences of 3 requests over a 4-request menu: the handler registered for the path is invoked exactly once with method, header values and body byte-for-byte, no handler for an unregistered path, the client result equals what the handler produced, status line 200 OK on the wire. WebSocket: accept key for 8 client keys vs RFC 6455; every message length 0..130 and 65530..65540 plus 200 KiB and 300 KiB, unmasked through the bundled client and masked with keys {00000000, ffffffff, 01020304, 80000001} through a raw RFC 6455 client over the repository's TCP client; sequences of 3 client messages + 2 server pushes over lengths {0,7,126,300}: every message arrives whole, in order, byte-for-byte in both directions, server frames decode with minimal length encoding. Pacing: the handler passes a gate before every read and the client before every receive; for exchanges of two messages (300+7 and 70000+5 bytes; thorough also 200 KiB+66000 and 0+126), with and without two server pushes, masked and unmasked, pipelined and lock-step, every gate vector over {run at once, after 1 more frame, after 2 more frames, when nothing else can move}^3 for the server x {at once, when idle} for the client x {1, 2, all} frames delivered per barrier. The same exchanges with 20000/30000-byte messages followed by shorter ones over an MTU of 1500 (the first message is still queued in the TCP sender when the next is produced).",
+  "Bodies and header values are in the grammar the bundled parser carries (no ': ' anywhere, header values without CRLF). A request fits one TCP segment (the HTTP layer reads a message with a single receive; loopback MTU 65535). The application goroutines run freely between barriers (channels of the application layer are not scheduled by the explorer): below the gates the check enumerates inputs and application pacing, not lock-level interleavings. Known finding D17 (pushed frames swallowed by the client's upgrade receive).",
   "DESIGN.md §5 C20"),
 }
 
